@@ -216,6 +216,53 @@ Theorem c15_client_auth_enforced :
   (s_client_auth_optional s = true /\ endpoint_identity e = None).
 Proof. exact (fun cert ca dname cco rc ra H cu => @client_auth_enforced cert ca dname cco cu rc ra H). Qed.
 
+(* Session resumption cannot carry a client past another server's client authentication.
+   Every tls_acceptor call builds a ServerConfig with a session store of its own
+   ([spawn_servers]); rustls resumes a session only out of the store that holds it
+   ([resume_sound], premise).  Then, for a client with a fixed identity and an initially empty
+   session cache that visits listeners of the process in ANY order, every connection a listener
+   yields satisfies that listener's own verifier: its peer certificates are the client's
+   certificate verified against THIS listener's client CA (or none, if optional / no client auth) *)
+Theorem c15_no_cross_server_resumption :
+  forall (cert ca : Type) (client_cert_ok : ca -> cert -> bool) (ca_usable : ca -> bool)
+         (ra : @TlsAcceptor cert ca -> option cert -> hs_server),
+  accept_sound client_cert_ok ra ->
+  forall rr : listener -> ticket -> option (option cert),
+  resume_sound rr ->
+  forall (cfgs : list ServerTlsConfig) (ident : option cert) (ls : list listener)
+         (l : listener) (pc : option cert),
+  Forall (fun l0 => In l0 (listeners (spawn_servers ca_usable cfgs))) ls ->
+  In (l, SrvAccept pc) (combine ls (visits ra rr ident None ls)) ->
+  match a_verifier (l_acc l) with
+  | NoClientAuth => pc = None
+  | WebPki root allow =>
+      (exists c : cert, ident = Some c /\ pc = Some c /\ client_cert_ok root c = true) \/
+      (allow = true /\ ident = None /\ pc = None)
+  end.
+Proof.
+  exact (fun cert ca cco cu ra Ha rr Hr =>
+           @no_cross_server_resumption_spawned cert ca cco cu ra Ha rr Hr).
+Qed.
+
+(* ... indeed what a listener yields does not depend on where the client has been before *)
+Theorem c15_resumption_transparent :
+  forall (cert ca : Type) (ca_usable : ca -> bool)
+         (ra : @TlsAcceptor cert ca -> option cert -> hs_server)
+         (rr : listener -> ticket -> option (option cert)),
+  resume_sound rr ->
+  forall (cfgs : list ServerTlsConfig) (ident : option cert) (ls : list listener),
+  Forall (fun l => In l (listeners (spawn_servers ca_usable cfgs))) ls ->
+  visits ra rr ident None ls = map (fun l => ra (l_acc l) ident) ls.
+Proof.
+  exact (fun cert ca cu ra rr Hr => @resumption_transparent_spawned cert ca cu ra rr Hr).
+Qed.
+
+(* the listeners of one process never share a store *)
+Theorem c15_spawned_servers_own_their_stores :
+  forall (cert ca : Type) (ca_usable : ca -> bool) (cfgs : list (@ServerTlsConfig cert ca)),
+  store_injective (listeners (spawn_servers ca_usable cfgs)).
+Proof. exact @spawn_servers_store_injective. Qed.
+
 (* optional + a certificate that does not verify: rejected, not treated as anonymous *)
 Theorem c15_bad_client_cert_always_rejected :
   forall (cert ca dname : Type) (client_cert_ok : ca -> cert -> bool)
@@ -329,8 +376,22 @@ Proof. exact (fun x => conj (all_cells_complete x) (matrix_complete x)). Qed.
 
 (* the premises are satisfiable: the reference handshake obeys both contracts *)
 Theorem c15_contract_satisfiable :
-  connect_sound t_chain_ok t_name_ok t_connect /\ accept_sound t_client_cert_ok t_accept.
-Proof. exact (conj t_connect_sound t_accept_sound). Qed.
+  connect_sound t_chain_ok t_name_ok t_connect /\ accept_sound t_client_cert_ok t_accept /\
+  @resume_sound certid caid ref_resume.
+Proof. exact (conj t_connect_sound (conj t_accept_sound (ref_resume_sound certid caid))). Qed.
+
+(* the separate stores are necessary: one store behind an open and a strict listener lets a
+   client without certificate into the strict one (first line), separate stores do not (second) *)
+Example c15_shared_store_breaks_client_auth :
+  let open_a := {| a_cert := SrvExample; a_verifier := NoClientAuth; a_alpn := [ALPN_H2] |} in
+  let strict_a := {| a_cert := SrvExample; a_verifier := WebPki CA2 false; a_alpn := [ALPN_H2] |} in
+  visits t_accept ref_resume None None
+    [ {| l_store := 0; l_acc := open_a |}; {| l_store := 0; l_acc := strict_a |} ]
+    = [SrvAccept None; SrvAccept None] /\
+  visits t_accept ref_resume None None
+    [ {| l_store := 0; l_acc := open_a |}; {| l_store := 1; l_acc := strict_a |} ]
+    = [SrvAccept None; SrvReject].
+Proof. exact shared_store_breaks_client_auth. Qed.
 
 (* non-vacuity: a served cell with an exposed certificate, and the single deviations from it *)
 Example c15_served_cell :
@@ -376,6 +437,7 @@ Print Assumptions c15_peer_certs_iff_presented.
 Print Assumptions c15_served_over_https_implies_all.
 Print Assumptions c15_verified_name_never_from_origin.
 Print Assumptions c15_served_over_https_implies_all_with_origin.
+Print Assumptions c15_no_cross_server_resumption.
 Print Assumptions c15_builder_preserves_tls.
 Print Assumptions c15_built_server_enforces_client_auth.
 Print Assumptions c15_matrix_complete.
